@@ -31,6 +31,7 @@ fn main() {
         "expr" => exprfam::exprcase,
         "cond" => exprfam::condcase,
         "insert" => exprfam::inscase,
+        "tpl" => exprfam::tplcase,
         _ => {
             eprintln!("unknown family {family}");
             std::process::exit(2);
